@@ -2317,3 +2317,102 @@ mod tests {
     with_source_robustness_tests(&mut Heap::new(), "#ouch");
   }
 }
+
+/// Verification hooks (C09): the pending-comment queue (`peek`/`consume`) and the
+/// comment-prepending helper, driven directly. Compiled only with `--cfg samlang_verif`.
+#[cfg(samlang_verif)]
+pub mod verif_hooks_queue {
+  use super::super::lexer::TokenProducer;
+  use super::SourceParser;
+  use samlang_ast::source::{Comment, CommentKind, CommentsNode};
+  use samlang_errors::ErrorSet;
+  use samlang_heap::{Heap, ModuleReference};
+  use std::collections::HashSet;
+
+  fn show_comments(heap: &Heap, comments: &[Comment]) -> Vec<(&'static str, String)> {
+    comments
+      .iter()
+      .map(|c| {
+        let k = match c.kind {
+          CommentKind::LINE => "line",
+          CommentKind::BLOCK => "block",
+          CommentKind::DOC => "doc",
+        };
+        (k, c.text.as_str(heap).to_string())
+      })
+      .collect()
+  }
+
+  /// One answer per op: `Peek` -> the peeked token's text, `Consume` -> the comments returned.
+  pub enum QueueAnswer {
+    Peeked(String),
+    Consumed(Vec<(&'static str, String)>),
+  }
+
+  /// ops: `false` = `peek()`, `true` = `consume()`. Also returns the comments still pending at
+  /// the end.
+  pub fn queue_trace(text: &str, ops: &[bool]) -> (Vec<QueueAnswer>, Vec<(&'static str, String)>) {
+    let mut heap = Heap::new();
+    let mut error_set = ErrorSet::new();
+    let mr = ModuleReference::DUMMY;
+    let mut answers = Vec::new();
+    let pending;
+    {
+      let mut parser = SourceParser::new(
+        TokenProducer::new(text, mr),
+        &mut heap,
+        &mut error_set,
+        mr,
+        HashSet::new(),
+      );
+      for op in ops {
+        if *op {
+          let comments = parser.consume();
+          answers.push(QueueAnswer::Consumed(show_comments(&*parser.heap, &comments)));
+        } else {
+          let token = parser.peek();
+          answers.push(QueueAnswer::Peeked(token.1.pretty_print(&*parser.heap)));
+        }
+      }
+      pending = show_comments(&*parser.heap, &parser.pending_comments);
+    }
+    (answers, pending)
+  }
+
+  /// Builds a comment store from `groups` (one reference per non-empty group, like
+  /// `create_comment_reference`), then calls
+  /// `mod_associated_comments_with_additional_preceding_comments(store, refs[target], extra)` and
+  /// returns the comment texts reachable from the returned reference and the store size.
+  pub fn prepend_trace(
+    groups: &[Vec<String>],
+    target: usize,
+    extra: &[String],
+  ) -> (Vec<String>, usize) {
+    let mut heap = Heap::new();
+    let mut error_set = ErrorSet::new();
+    let mr = ModuleReference::DUMMY;
+    let mk = |heap: &mut Heap, v: &[String]| -> Vec<Comment> {
+      v.iter()
+        .map(|s| Comment { kind: CommentKind::BLOCK, text: heap.alloc_string(s.clone()) })
+        .collect()
+    };
+    let group_comments: Vec<Vec<Comment>> = groups.iter().map(|g| mk(&mut heap, g)).collect();
+    let extra_comments = mk(&mut heap, extra);
+    let mut parser =
+      SourceParser::new(TokenProducer::new("", mr), &mut heap, &mut error_set, mr, HashSet::new());
+    let refs: Vec<_> = group_comments
+      .into_iter()
+      .map(|g| parser.comments_store.create_comment_reference(g))
+      .collect();
+    let r = super::utils::mod_associated_comments_with_additional_preceding_comments(
+      &mut parser,
+      refs[target],
+      extra_comments,
+    );
+    let texts = match parser.comments_store.get(r) {
+      CommentsNode::NoComment => Vec::new(),
+      CommentsNode::Comments(cs) => cs.iter().map(|c| c.text.as_str(parser.heap).to_string()).collect(),
+    };
+    (texts, parser.comments_store.all_comments().len())
+  }
+}
